@@ -195,12 +195,22 @@ def configs(tier):
 
 
 def jobs(tier):
-    return [{'fn': 'job', 'weight': w, 'group': kind,
-             'args': dict(fam=fam, kind=kind, sizes=sizes, n=n, variant=var)}
-            for fam, kind, sizes, n, var, w in configs(tier)]
+    js = [{'fn': 'job', 'weight': w, 'group': kind,
+           'args': dict(fam=fam, kind=kind, sizes=sizes, n=n, variant=var)}
+          for fam, kind, sizes, n, var, w in configs(tier)]
+    deep = ('II', 'OO', 'fs') if tier == 'quick' else F.COVER
+    for fam in deep:
+        for kind in F.TREE_KINDS:
+            if tier == 'quick':
+                specs = [((2, 3), 11, 'asc'), ((3, 2), 11, 'asc'), ((2, 3), 10, 'desc'), ((3, 2), 10, 'mid')]
+            else:
+                specs = [(sz, 12, o) for sz in ((2, 3), (3, 2), (2, 4), (3, 4)) for o in ('asc', 'desc', 'mid')]
+                specs += [((4, 2), 14, 'asc'), ((4, 3), 14, 'asc')]
+            for sz, n, order in specs:
+                js.append({'fn': 'deep_job', 'weight': 40, 'group': 'deep/' + kind,
+                           'args': dict(fam=fam, kind=kind, sizes=sz, n=n, order=order)})
+    return js
 
-
-# --------------------------------------------------------------------------
 
 def alphabet(ctx, keys, grid, vals):
     ops = list(S.full_alphabet(ctx, keys, grid, vals))
@@ -448,6 +458,93 @@ def job(fam, kind, sizes, n, variant):
                 sample=sample)
 
 
+def deep_job(fam, kind, sizes, n, order):
+    """Lock-step over a GROWTH + THINNING space with (asymmetric) node sizes: n keys inserted in a
+    scripted order - shape, contents and pickle of C and Python compared after every insert - then
+    BFS over every subset of deletions (every order that changes the shape), compared after
+    every transition.  Reaches non-root interior splits, which need >= 10 keys."""
+    from ..report import Reporter
+    cc = O.Ctx(fam, kind, 'c')
+    pc = O.Ctx(fam, kind, 'py')
+    F.set_sizes(fam, *sizes)
+    keys, grid = F.universe(fam, n, 'centred')
+    vals = F.values(fam)
+    prefix = S.build_prefix(cc, keys, vals, order)
+    dels = S.delete_alphabet(cc, keys)
+    rep = Reporter('C09')
+    guards = collections.Counter()
+    base = dict(deep=True, fam=fam, kind=kind, sizes=sizes, n=n, order=order)
+    compared = [0]
+
+    def rebuild(hist):
+        a, b = cc.new(), pc.new()
+        for op in hist:
+            O.fast_apply(cc, a, op)
+            O.fast_apply(pc, b, op)
+        return a, b
+
+    def compare(hist, a, b):
+        """-> canonical key of the C tree, or None after a reported difference"""
+        compared[0] += 1
+        sig = dict(fam=fam, kind=kind, site=hist[-1][0] if hist else 'new', klass='deep',
+                   ktype=fam[0] if fam[0] in 'Of' else 'int', vtype=fam[1] if fam[1] in 'OFs' else 'int')
+        case = dict(base, history=[list(o) for o in hist])
+        try:
+            ca, cb = C.dump(a, True), C.dump(b, True)
+        except Exception as e:      # noqa
+            rep.add(dict(sig, cls='dump-failed'), case, repr(e))
+            return None
+        if O.contents(cc, a) != O.contents(pc, b):
+            rep.add(dict(sig, cls='contents'), case, 'C %r, Python %r' % (O.contents(cc, a), O.contents(pc, b)))
+            return None
+        if ca != cb:
+            rep.add(dict(sig, cls='shape'), case, 'C %r\nPython %r' % (ca, cb))
+            return None
+        st = C.shape_stats(ca)
+        if st['height'] >= 3:
+            guards['height>=3'] += 1
+        if st['height'] >= 4:
+            guards['height>=4'] += 1
+        pa, pb = O.outcome(pickle.dumps, a, 2), O.outcome(pickle.dumps, b, 2)
+        guards['pickles_compared'] += 1
+        if pa != pb:
+            rep.add(dict(sig, cls='bytes-differ', site='pickle'), case, 'C %r\nPy %r' % (pa, pb))
+            return None
+        probs = C.walk(ca, cc.is_map, *sizes)
+        if probs:
+            rep.add(dict(sig, cls='walk'), case, '; '.join(probs[:3]))
+            return None
+        return ca
+
+    # growth
+    for i in range(len(prefix) + 1):
+        a, b = rebuild(prefix[:i])
+        k0 = compare(prefix[:i], a, b)
+        guards['growth_steps'] += 1
+        if k0 is None:
+            break
+    states = 1
+    transitions = 0
+    sample = dict(base, history=[list(o) for o in prefix[:4]] + ['...'])
+    if k0 is not None:
+        seen = {k0}
+        frontier = collections.deque([prefix])
+        while frontier and not rep.full:
+            hist = frontier.popleft()
+            for op in dels:
+                slot.set(('E2deep', fam, kind, sizes, order, hist[len(prefix):], op))
+                a, b = rebuild(hist + (op,))
+                transitions += 1
+                k = compare(hist + (op,), a, b)
+                if k is not None and k not in seen:
+                    seen.add(k)
+                    states += 1
+                    frontier.append(hist + (op,))
+    return dict(states=states, transitions=transitions, compared=compared[0], evaluations=compared[0],
+                distinct=states, exhaustive=not rep.full, guards=dict(guards), outcomes={},
+                violations=rep.all(), sample=sample)
+
+
 def expected_unusable(op, klass):
     """Predicate on the outcome for an op whose key/value argument is not representable."""
     name = op[0]
@@ -466,6 +563,14 @@ def expected_unusable(op, klass):
 
 
 def replay(case):
+    if case.get('deep'):
+        r = deep_job(case['fam'], case['kind'], tuple(case['sizes']), case['n'], case['order'])
+        vs = [v for v in r['violations'] if v['case'].get('history') == case.get('history')]
+        return dict(violations=vs)
+    return _replay(case)
+
+
+def _replay(case):
     fam, kind = case['fam'], case['kind']
     cc = O.Ctx(fam, kind, 'c')
     pc = O.Ctx(fam, kind, 'py')
